@@ -23,9 +23,6 @@ var ErrUnsupportedHashAlgorithm = errors.New("unsupported hash algorithm detecte
 
 var ErrEmptyCommandArgs = errors.New("the command args are empty")
 
-// visitedSymlinks is a hashset that contains all paths that we have visited.
-var visitedSymlinks Set
-
 /*
 RecordArtifact reads and hashes the contents of the file at the passed path
 using sha256 and returns a map in the following format:
@@ -93,9 +90,9 @@ If recording an artifact fails the first return value is nil and the second
 return value is the error.
 */
 func RecordArtifacts(paths []string, hashAlgorithms []string, gitignorePatterns []string, lStripPaths []string, lineNormalization bool, followSymlinkDirs bool) (evalArtifacts map[string]HashObj, err error) {
-	// Make sure to initialize a fresh hashset for every RecordArtifacts call
-	visitedSymlinks = NewSet()
-	evalArtifactsUnnormalized, err := recordArtifacts(paths, hashAlgorithms, gitignorePatterns, lStripPaths, lineNormalization, followSymlinkDirs)
+	// Every RecordArtifacts call has its own hashset of the symlinks that are
+	// being followed, calls do not share any state
+	evalArtifactsUnnormalized, err := recordArtifacts(paths, hashAlgorithms, gitignorePatterns, lStripPaths, lineNormalization, followSymlinkDirs, NewSet())
 	if err != nil {
 		return nil, err
 	}
@@ -128,7 +125,7 @@ the following format:
 If recording an artifact fails the first return value is nil and the second
 return value is the error.
 */
-func recordArtifacts(paths []string, hashAlgorithms []string, gitignorePatterns []string, lStripPaths []string, lineNormalization bool, followSymlinkDirs bool) (map[string]HashObj, error) {
+func recordArtifacts(paths []string, hashAlgorithms []string, gitignorePatterns []string, lStripPaths []string, lineNormalization bool, followSymlinkDirs bool, visitedSymlinks Set) (map[string]HashObj, error) {
 	artifacts := make(map[string]HashObj)
 	for _, path := range paths {
 		err := filepath.Walk(path,
@@ -182,15 +179,17 @@ func recordArtifacts(paths []string, hashAlgorithms []string, gitignorePatterns 
 						}
 						targetIsDir = true
 					}
-					// add symlink to visitedSymlinks set
-					// this way, we know which link we have visited already
-					// if we visit a symlink twice, we have detected a symlink cycle
+					// add symlink to visitedSymlinks set while we follow it
+					// this way, we know which links we are following right now
+					// if we get to one of them again, we have detected a symlink cycle
+					// a symlink that is reached a second time on another way is none
 					visitedSymlinks.Add(path)
 					// We recursively call recordArtifacts() to follow
 					// the new path. The artifacts are named after the symlink
 					// and not after its target, hence prefixes are stripped
 					// from the names below and not in the recursive call.
-					evalArtifacts, evalErr := recordArtifacts([]string{evalSym}, hashAlgorithms, gitignorePatterns, nil, lineNormalization, followSymlinkDirs)
+					evalArtifacts, evalErr := recordArtifacts([]string{evalSym}, hashAlgorithms, gitignorePatterns, nil, lineNormalization, followSymlinkDirs, visitedSymlinks)
+					visitedSymlinks.Remove(path)
 					if evalErr != nil {
 						return evalErr
 					}
